@@ -44,6 +44,8 @@ LoadEntries == {"load", "constructor", "model_validate"}
 \* ListSettings: some settings are lists (search path, data_path_overrides).  A list is a value: the layer that gives one
 \* REPLACES what the layers below it said (the harness couples a one-element list to every layer's SOx value, so Eff(sox)
 \* of this specification is also the expected list).
+\* (fail kind "lonely_path": a search path of exactly ONE directory that holds none of the data files - a search path given
+\* is the search path, however short: the load is refused, nothing is found through directories the caller did not name)
 \* (fail kind "bad_engine_other_path": a load that names its OWN search path - a directory holding a performance model under
 \* the usual relative name, but no engine file - fails; nothing of it may show in a later load: PathsResolved also asks that the
 \* data files an active configuration names lie in ITS search path)
@@ -65,7 +67,7 @@ NoVals == [p \in Paths |-> Unset]
 
 AllFailKinds == {"invalid_enum_kw", "invalid_enum_file", "bad_type_kw",
                  "missing_file", "bad_toml", "bad_perf_path", "bad_engine_path",
-                 "bad_weather_dir", "null_perf_kw", "bad_perf_path_abs", "bad_engine_path_abs", "bad_engine_other_path"}       \* null_perf_kw: a required path given as None; *_abs: a missing file named by an ABSOLUTE path
+                 "bad_weather_dir", "null_perf_kw", "bad_perf_path_abs", "bad_engine_path_abs", "bad_engine_other_path", "lonely_path"}       \* null_perf_kw: a required path given as None; *_abs: a missing file named by an ABSOLUTE path
 MutLevels == {"outer", "weather", "emissions"}
 
 VARIABLES configured,  \* is there an active configuration
